@@ -173,6 +173,101 @@ def moved_row(table, key, live):
     return None
 
 
+SORTS = ("sort", "sort_by", "sort_by_key", "sort_unstable", "sort_unstable_by", "sort_unstable_by_key", "sort_by_cached_key")
+
+
+def sorted_before_use(cr, f, site):
+    """a hash iteration that is only collected into a Vec which is sorted before anything else looks at it is order-insensitive by
+    construction: every adaptor call of the site feeds (through further adaptors) a collect() whose Vec is first used by a sort call
+    that dominates every other use."""
+    from engine import flow
+    from rules.c08 import def_of_local
+    if not site["what"].startswith("adaptor:"):
+        return None
+    dom = flow.dominators(f)
+
+    def uses_of(local):
+        out = []
+        for bi, b in enumerate(f["blocks"]):
+            for st in b["s"]:
+                rv = st.get("rv")
+                if rv and rv["r"] in ("ref", "use") and M.place_local(rv.get("p") if rv["r"] == "ref" else (M.op_place(rv["o"]) or -1)) == local:
+                    out.append((bi, "alias", st["p"] if isinstance(st["p"], int) else None))
+            t = b["term"]
+            if t["t"] == "call" and any(M.op_place(x) is not None and M.place_local(M.op_place(x)) == local for x in t["args"]):
+                out.append((bi, "call", t))
+        return out
+    for bi in site["bbs"]:
+        t = f["blocks"][bi]["term"]
+        # follow the chain of adaptors to the collect
+        cur, hops = t, 0
+        while cur is not None and M.norm_path(cur["fn"].get("path", "")).split("::")[-1] != "collect" and hops < 8:
+            nxt = None
+            dl = cur.get("dest")
+            if not isinstance(dl, int):
+                return None
+            us = uses_of(dl)
+            calls = [u for u in us if u[1] == "call"]
+            alias = [u for u in us if u[1] == "alias" and u[2] is not None]
+            if len(calls) == 1 and not alias:
+                nxt = calls[0][2]
+            elif not calls and len(alias) == 1:
+                a2 = uses_of(alias[0][2])
+                nxt = a2[0][2] if len(a2) == 1 and a2[0][1] == "call" else None
+            if nxt is None or not (M.norm_path(nxt["fn"].get("decl", "")).startswith("std::iter::Iterator::") or M.norm_path(nxt["fn"].get("decl", "")) == "std::iter::IntoIterator::into_iter"):
+                return None
+            cur, hops = nxt, hops + 1
+        if cur is None or M.norm_path(cur["fn"].get("path", "")).split("::")[-1] != "collect" or not isinstance(cur.get("dest"), int):
+            return None
+        ty, _ = M.place_ty(cr, None, cur["dest"], f)
+        if ty is None or not (ty.adt_path() or "").endswith("vec::Vec"):
+            return None
+        vec = cur["dest"]
+        # every use of the Vec (through &mut / & aliases) that is not the sort itself must be dominated by a sort call on it
+        frontier, users = [vec], []
+        seen = set()
+        while frontier:
+            l = frontier.pop()
+            if l in seen:
+                continue
+            seen.add(l)
+            for u in uses_of(l):
+                if u[1] == "alias" and u[2] is not None:
+                    frontier.append(u[2])
+                elif u[1] == "call":
+                    users.append((u[0], u[2]))
+        sort_bbs, feeders = [], set()
+        for ub, ut in users:
+            p = M.norm_path(ut["fn"].get("path", ""))
+            if p.split("::")[-1] in SORTS:
+                sort_bbs.append(ub)
+            elif M.norm_path(ut["fn"].get("decl", "")) in ("std::ops::DerefMut::deref_mut", "std::ops::Deref::deref") and isinstance(ut.get("dest"), int):
+                # `v.sort()` on a Vec goes through deref_mut to the slice: the deref is a feeder of the sort when the slice is only sorted
+                fr2, seen2, sub = [ut["dest"]], set(), []
+                while fr2:
+                    l2 = fr2.pop()
+                    if l2 in seen2:
+                        continue
+                    seen2.add(l2)
+                    for u2 in uses_of(l2):
+                        if u2[1] == "alias" and u2[2] is not None:
+                            fr2.append(u2[2])
+                        elif u2[1] == "call":
+                            sub.append((u2[0], u2[2]))
+                if sub and all(M.norm_path(x["fn"].get("path", "")).split("::")[-1] in SORTS for _, x in sub):
+                    sort_bbs += [b_ for b_, _ in sub]
+                    feeders.add(id(ut))
+        if not sort_bbs:
+            return None
+        first_sort = min(sort_bbs, key=lambda b_: len(dom[b_]))
+        for ub, ut in users:
+            if id(ut) in feeders or M.norm_path(ut["fn"].get("path", "")).split("::")[-1] in SORTS:
+                continue
+            if first_sort not in dom[ub] or ub == first_sort:
+                return None
+    return "the iteration is only collected into a Vec that is sorted before any other use (decided on the CFG: the sort call dominates every other use)"
+
+
 def hash_order(ctx):
     rule = "R-C05-hash-order"
     table = load_table(TABLE)
@@ -202,6 +297,10 @@ def hash_order(ctx):
             ctx.ob(rule, key, False, "randomly ordered container drives a structured / verdict sink: %s" % s["sink"], file=s["file"], line=s["line"])
             continue
         if ent is None:
+            why = sorted_before_use(s["cr"], s["cr"].fns[s["fn"]], s)
+            if why:
+                ctx.ob(rule, key, True, "order-insensitive: " + why, file=s["file"], line=s["line"])
+                continue
             ctx.ob(rule, key, False, "new consumption of a randomly ordered container (not classified in tables/hash_iteration.tbl)", file=s["file"], line=s["line"])
             continue
         ctx.ob(rule, key, True, "%s: %s" % (cls, reason), file=s["file"], line=s["line"],
